@@ -1,5 +1,7 @@
 package font
 
+import "unicode/utf8"
+
 // Font represents a PDF font
 type Font struct {
 	Name     string
@@ -93,8 +95,23 @@ func (f *Font) DecodeString(data []byte) string {
 	}
 
 	// Priority 4: Fall back to raw bytes as string
-	decoded = string(data)
+	decoded = RawBytesToString(data)
 	return NormalizeUnicode(decoded)
+}
+
+// RawBytesToString is the last-resort decoding of character codes for which no
+// font information exists. Bytes that already form valid UTF-8 are kept; any
+// other byte string is read as one character per byte (ISO 8859-1), so that the
+// result is always valid UTF-8.
+func RawBytesToString(data []byte) string {
+	if utf8.Valid(data) {
+		return string(data)
+	}
+	runes := make([]rune, len(data))
+	for i, b := range data {
+		runes[i] = rune(b)
+	}
+	return string(runes)
 }
 
 // IsVertical returns true if this font uses vertical writing mode
